@@ -289,3 +289,286 @@ theorem T_cancelReq (h : c.Inv s) (e : Nat) :
 
 variable {c s} in
 @[ksent] theorem Inv.cancelReq (h : c.Inv s) (e : Nat) : c.Inv (cancelReq s e).1 := h.mono (Grow.krel.cancelReq s e)
+
+/-! ## conditions -/
+
+@[ksent] theorem r_condOps (h : c.Inv s) (cd : Nat) :
+    condOps (c.T q s) (c.ρ cd) = ((condOps s cd).1, (condOps s cd).2.map c.ρ) := by
+  unfold condOps
+  tsimp [h]
+  cases (s.ev cd).kind <;> rfl
+
+@[ksent] theorem r_isCond (h : c.Inv s) (e : Nat) : isCond (c.T q s) (c.ρ e) = isCond s e := by
+  unfold isCond
+  tsimp [h]
+  cases (s.ev e).kind <;> rfl
+
+theorem T_condCheck (h : c.Inv s) (cd e : Nat) : condCheck (c.T q s) (c.ρ cd) (c.ρ e) = c.T q (condCheck s cd e) := by
+  unfold condCheck
+  tsimp [h]
+  cases ho : (s.ev e).out with
+  | none => tsimp [h]
+  | some o =>
+    cases o with
+    | ok v => tsimp [h]
+    | fail x => tsimp [h]
+
+variable {c s} in
+@[ksent] theorem Inv.condCheck (h : c.Inv s) (cd e : Nat) : c.Inv (condCheck s cd e) := h.mono (Grow.krel.condCheck s cd e)
+@[ksent] theorem i_condCheck (h : c.Inv s) (cd e : Nat) :
+    c.T q (condCheck s cd e) = condCheck (c.T q s) (c.ρ cd) (c.ρ e) := (c.T_condCheck q s h cd e).symm
+
+theorem T_eraseCheck (h : c.Inv s) (cd e : Nat) : eraseCheck (c.T q s) (c.ρ cd) (c.ρ e) = c.T q (eraseCheck s cd e) := by
+  unfold eraseCheck
+  tsimp [h]
+  cases hc : (s.ev e).cbs with
+  | none => rfl
+  | some l =>
+    have := c.r_containsCb l (.check cd)
+    simp only [rnCb_check] at this
+    simp only [Option.map_some, this]
+    have h2 := c.i_eraseCb q s h e (.check cd)
+    simp only [rnCb_check] at h2
+    split
+    · rw [h2]
+    · rfl
+
+variable {c s} in
+@[ksent] theorem Inv.eraseCheck (h : c.Inv s) (cd e : Nat) : c.Inv (eraseCheck s cd e) := h.mono (Grow.krel.eraseCheck s cd e)
+@[ksent] theorem i_eraseCheck (h : c.Inv s) (cd e : Nat) :
+    c.T q (eraseCheck s cd e) = eraseCheck (c.T q s) (c.ρ cd) (c.ρ e) := (c.T_eraseCheck q s h cd e).symm
+
+/-- a fold over renamed operands -/
+theorem T_foldl (f : KState ℚ σ → EvId → KState ℚ σ) (f' : KState ℚ σ → EvId → KState ℚ σ)
+    (hf : ∀ s e, c.Inv s → f' (c.T q s) (c.ρ e) = c.T q (f s e)) (hi : ∀ s e, c.Inv s → c.Inv (f s e))
+    (l : List EvId) (s : KState ℚ σ) (h : c.Inv s) :
+    (l.map c.ρ).foldl f' (c.T q s) = c.T q (l.foldl f s) ∧ c.Inv (l.foldl f s) := by
+  induction l generalizing s with
+  | nil => exact ⟨rfl, h⟩
+  | cons e rest ih =>
+    simp only [List.map_cons, List.foldl_cons]
+    rw [hf s e h]
+    exact ih _ (hi s e h)
+
+theorem T_removeChecks (fuel : Nat) (cd : Nat) (s : KState ℚ σ) (h : c.Inv s) :
+    removeChecks fuel (c.ρ cd) (c.T q s) = c.T q (removeChecks fuel cd s) := by
+  induction fuel generalizing cd s with
+  | zero => rfl
+  | succ n ih =>
+    unfold removeChecks
+    rw [c.r_condOps q s h]
+    simp only
+    refine (c.T_foldl q _ _ ?_ ?_ _ s h).1
+    · intro s e hs
+      rw [c.T_eraseCheck q s hs, c.r_isCond q _ (hs.eraseCheck cd e)]
+      split
+      · exact ih e _ (hs.eraseCheck cd e)
+      · rfl
+    · intro s e hs
+      split
+      · exact (hs.eraseCheck cd e).mono (Grow.krel.removeChecks _ _ _)
+      · exact hs.eraseCheck cd e
+
+variable {c s} in
+@[ksent] theorem Inv.removeChecks (h : c.Inv s) (fuel cd : Nat) : c.Inv (removeChecks fuel cd s) :=
+  h.mono (Grow.krel.removeChecks fuel cd s)
+
+theorem r_populate (h : c.Inv s) (fuel : Nat) (cd : Nat) :
+    populate fuel (c.T q s) (c.ρ cd) = (populate fuel s cd).map c.ρ := by
+  induction fuel generalizing cd with
+  | zero => rfl
+  | succ n ih =>
+    unfold populate
+    rw [c.r_condOps q s h]
+    simp only [List.flatMap_map, List.map_flatMap]
+    congr 1
+    funext e
+    rw [c.r_isCond q s h, c.r_processed q s h, ih]
+    split
+    · rfl
+    · split <;> rfl
+
+/-- the fuel `id + 1` that `Condition._build_value` of condition `cd` gets is sufficient: one more unit changes nothing
+(true whenever the operands of every condition were created before the condition, `CondWF`) -/
+def FuelOK (cd : Nat) : Prop :=
+  removeChecks (c.ρ cd + 1) cd s = removeChecks (cd + 1) cd s ∧
+  populate (c.ρ cd + 1) (removeChecks (cd + 1) cd s) cd = populate (cd + 1) (removeChecks (cd + 1) cd s) cd
+
+theorem FuelOK_of_lt (cd : Nat) (hlt : cd < c.u) : c.FuelOK s cd := by
+  unfold FuelOK
+  rw [c.ρ_lt hlt]
+  exact ⟨rfl, rfl⟩
+
+theorem T_condBuild (h : c.Inv s) (cd : Nat) (hf : c.FuelOK s cd) :
+    condBuild (c.T q s) (c.ρ cd) = c.T q (condBuild s cd) := by
+  unfold condBuild
+  simp only
+  rw [c.T_removeChecks q _ cd s h, hf.1, c.out_T q _ (h.removeChecks _ _)]
+  cases ho : ((removeChecks (cd + 1) cd s).ev cd).out with
+  | none => rfl
+  | some o =>
+    cases o with
+    | fail x => rfl
+    | ok v =>
+      simp only [Option.map_some, rnOutcome_ok]
+      rw [c.r_populate q _ (h.removeChecks _ _), hf.2, c.i_setOut q _ (h.removeChecks _ _)]
+      rfl
+
+variable {c s} in
+@[ksent] theorem Inv.condBuild (h : c.Inv s) (cd : Nat) : c.Inv (condBuild s cd) := h.mono (Grow.krel.condBuild s cd)
+
+theorem T_mkCond (h : c.Inv s) (all : Bool) (ops : List EvId) :
+    mkCond (c.T q s) all (ops.map c.ρ) = (c.T q (mkCond s all ops).1, c.ρ (mkCond s all ops).2) := by
+  unfold mkCond
+  have hrec : ({ kind := .cond all (ops.map c.ρ), cbs := some [], out := none } : EvRec ℚ) =
+      rnRec c.ρ { kind := .cond all ops, cbs := some [], out := none } := rfl
+  rw [hrec, c.T_newLabelled q s h]
+  simp only [List.isEmpty_map]
+  have h1 : c.Inv (s.newLabelled { kind := .cond all ops, cbs := some [], out := none }).1 := h.newLabelled _
+  have hcn : (s.newLabelled { kind := .cond all ops, cbs := some [], out := none }).2 = s.events.size := rfl
+  simp only [hcn]
+  split
+  · tsimp [h1]
+  · have hf := c.T_foldl q
+      (fun st e => if st.processed e then condCheck st s.events.size e else st.addCb e (.check s.events.size))
+      (fun st e => if st.processed e then condCheck st (c.ρ s.events.size) e else st.addCb e (.check (c.ρ s.events.size)))
+      (by
+        intro st e hst
+        rw [c.r_processed q st hst]
+        split
+        · exact c.T_condCheck q st hst _ _
+        · have := c.i_addCb q st hst e (.check s.events.size)
+          simp only [rnCb_check] at this
+          exact this.symm)
+      (by
+        intro st e hst
+        split
+        · exact hst.condCheck _ _
+        · exact hst.addCb _ _)
+      ops _ h1
+    rw [hf.1]
+    have := c.i_addCb q _ hf.2 s.events.size (.build s.events.size)
+    simp only [rnCb_build] at this
+    rw [this]
+
+variable {c s} in
+@[ksent] theorem Inv.mkCond (h : c.Inv s) (all : Bool) (ops : List EvId) : c.Inv (mkCond s all ops).1 :=
+  h.mono (Grow.krel.mkCond s all ops)
+
+@[ksent] theorem r_renderSimple (h : c.Inv s) (v : Val) : renderSimple (c.T q s) (rnVal c.ρ v) = renderSimple s v := by
+  unfold renderSimple
+  cases v <;> tsimp [h]
+
+theorem r_freezeVal (h : c.Inv s) (v : Val) : freezeVal (c.T q s) (rnVal c.ρ v) = rnVal c.ρ (freezeVal s v) := by
+  unfold freezeVal
+  cases v <;> tsimp [h]
+  case cv keys =>
+    congr 2
+    simp only [List.map_map]
+    congr 2
+    apply List.map_congr_left
+    intro k _
+    simp only [Function.comp]
+    tsimp [h]
+    cases ho : (s.ev k).out with
+    | none => rfl
+    | some o =>
+      cases o with
+      | ok v => simp only [Option.map_some, rnOutcome_ok, c.r_renderSimple q s h]
+      | fail x => rfl
+
+omit c q in
+@[ksent] theorem newEv_snd' (r : EvRec ℚ) : (s.newEv r).2 = s.events.size := rfl
+omit c q in
+@[ksent] theorem newLabelled_snd' (r : EvRec ℚ) : (s.newLabelled r).2 = s.events.size := rfl
+
+omit c q in
+theorem mkInterrupt_err_closed (ρ : EvId → EvId) (p : Nat) (v : Val) (x : Exc) (hx : (mkInterrupt s p v).2 = some x) :
+    rnExc ρ x = x := by
+  unfold mkInterrupt at hx
+  split at hx
+  · cases hx; rfl
+  · split at hx
+    · cases hx; rfl
+    · cases hx
+
+omit c q in
+theorem cancelReq_err_closed (ρ : EvId → EvId) (e : Nat) (x : Exc) (hx : (cancelReq s e).2 = some x) : rnExc ρ x = x := by
+  unfold cancelReq at hx
+  repeat' split at hx
+  all_goals first | (cases hx; rfl) | cases hx
+
+omit c q in
+theorem pair_eta {α β : Type} (p : α × β) : p = (p.1, p.2) := rfl
+
+theorem T_doCall (h : c.Inv s) (self : Nat) (cl : Call ℚ σ) :
+    doCall (c.T q s) (c.ρ self) (rnCall c.ρ c.rσ cl) = (c.T q (doCall s self cl).1, rnReply c.ρ (doCall s self cl).2) := by
+  cases cl <;> simp only [rnCall, doCall]
+  case timeout d v => tsimp [h]; all_goals tsplit [h]
+  case event => tsimp [h]
+  case succeed e v => tsimp [h]; all_goals tsplit [h]
+  case fail e x => tsimp [h]; all_goals tsplit [h]
+  case spawn st => tsimp [h]
+  case interrupt p cause =>
+    have hk : (rnKind c.ρ (s.ev p).kind != Kind.proc) = ((s.ev p).kind != Kind.proc) := by cases (s.ev p).kind <;> rfl
+    rw [c.kind_T q s h, hk, c.T_mkInterrupt q s h]
+    split
+    · rfl
+    · rw [pair_eta (mkInterrupt s p cause)]
+      cases ho : (mkInterrupt s p cause).2 with
+      | none => rfl
+      | some x => simp only [rnReply, mkInterrupt_err_closed s c.ρ p cause x ho]
+  case probe e tag => tsimp [h]; all_goals tsplit [h]
+  case cond all ops => rw [c.T_mkCond q s h]; rfl
+  case request r prio pre =>
+    have := c.T_mkPut q s h r { res := r, prio := prio, preempt := pre, time := s.now, proc := s.active }
+    simp only [rnReq_mk, c.r_ρ_zero] at this
+    simp only [c.r_res, rnRes_kind, c.r_now, c.r_active, this]
+    split <;> rfl
+  case release r req =>
+    have := c.T_mkGet q s h r { res := r, time := s.now, proc := s.active, releaseOf := req }
+    simp only [rnReq_mk] at this
+    simp only [c.r_res, rnRes_kind, c.r_now, c.r_active, this]
+    split <;> rfl
+  case cancel e =>
+    rw [c.T_cancelReq q s h, pair_eta (cancelReq s e)]
+    cases ho : (cancelReq s e).2 with
+    | none => rfl
+    | some x => simp only [rnReply, cancelReq_err_closed s c.ρ e x ho]
+  case cput r a =>
+    have := c.T_mkPut q s h r { res := r, amount := a, time := s.now, proc := s.active }
+    simp only [rnReq_mk, c.r_ρ_zero] at this
+    simp only [c.r_res, rnRes_kind, c.r_now, c.r_active, this]
+    split
+    · rfl
+    · split <;> rfl
+  case cget r a =>
+    have := c.T_mkGet q s h r { res := r, amount := a, time := s.now, proc := s.active }
+    simp only [rnReq_mk, c.r_ρ_zero] at this
+    simp only [c.r_res, rnRes_kind, c.r_now, c.r_active, this]
+    split
+    · rfl
+    · split <;> rfl
+  case sput r it =>
+    have := c.T_mkPut q s h r { res := r, item := it, time := s.now, proc := s.active }
+    simp only [rnReq_mk, c.r_ρ_zero] at this
+    simp only [c.r_res, rnRes_kind, c.r_now, c.r_active, this]
+    split <;> rfl
+  case sget r f =>
+    have := c.T_mkGet q s h r { res := r, filter := f, time := s.now, proc := s.active }
+    simp only [rnReq_mk, c.r_ρ_zero] at this
+    simp only [c.r_res, rnRes_kind, c.r_now, c.r_active, this]
+    split <;> rfl
+  case log what v =>
+    rw [c.r_freezeVal q s h]
+    tsimp [h]
+  case load k =>
+    tsimp [h]
+    cases (s.shared.find? (·.1 == k)) <;> rfl
+  case store k v => tsimp [h]
+
+variable {c s} in
+@[ksent] theorem Inv.doCall (h : c.Inv s) (self : Nat) (cl : Call ℚ σ) : c.Inv (doCall s self cl).1 :=
+  h.mono (Grow.krel.doCall s self cl)
+
+end SplitCfg
